@@ -84,6 +84,27 @@ func injective(n, l int, f func(seq []int)) {
 	rec()
 }
 
+// longLine builds a simple x-monotone line of n vertices: shape 0 a zigzag of
+// amplitude 100 with a slow drift, shape 1 a staircase with small steps, shape
+// 2 a zigzag whose amplitude grows.
+func longLine(n, shape int) []ipt {
+	l := make([]ipt, n)
+	for k := range l {
+		x := int64(10 * k)
+		var y int64
+		switch shape {
+		case 0:
+			y = int64(k%2)*100 + int64(k%7)
+		case 1:
+			y = int64(k/2)*3 + int64(k%2)
+		default:
+			y = int64(k%2) * int64(k)
+		}
+		l[k] = ipt{x, y}
+	}
+	return l
+}
+
 var sliverDivs = []float64{1, 256, 65536}
 var sliverTols = []float64{8, 20, 60, 1e9}
 
@@ -365,6 +386,15 @@ func enumerate(visit func(idx int64, mk func() Case)) {
 			}
 		})
 	}
+	// long simple lines (an implementation may treat long inputs differently)
+	for _, n := range []int{63, 64, 65, 100, 257, 1000} {
+		for shape := 0; shape < 3; shape++ {
+			for _, tol := range []float64{0, 2, 30, 150, 1e9} {
+				n, shape, tol := n, shape, tol
+				emit(func() Case { return Case{Kind: "line-long", Seq: []int{n, shape}, Tol: tol} })
+			}
+		}
+	}
 	// integer grid family (not in general position): 4x4, length <= 4
 	for l := 0; l <= 4; l++ {
 		total := 1
@@ -452,14 +482,20 @@ func lenClass(n int) string {
 func execute(c Case) (string, string, bool) {
 	ps := pointSet()
 	switch c.Kind {
-	case "line", "grid-line", "line-small", "line-tiny", "line-sliver", "line-witness":
+	case "line", "grid-line", "line-small", "line-tiny", "line-sliver", "line-witness", "line-long":
 		li := make([]ipt, len(c.Seq))
+		if c.Kind == "line-long" {
+			li = longLine(c.Seq[0], c.Seq[1])
+		}
 		if c.Kind == "line-sliver" {
 			ps = sliverSet()
 		} else if c.Kind == "line-witness" {
 			ps = witnessSet()
 		}
 		for i, k := range c.Seq {
+			if c.Kind == "line-long" {
+				break
+			}
 			if c.Kind != "grid-line" {
 				li[i] = ps[k]
 			} else {
@@ -672,7 +708,7 @@ func main() {
 		}
 	}
 	r := report.New("C13", tier, "model_checking")
-	r.Rule = "E1 (isolated workers, 2 GiB address-space limit, 60 s silence horizon): every vertex sequence of length 0..6 (thorough: over 16 points) over a 12-point set with no three points collinear (verified exactly) x tolerances {0,40,100,150,300,1e9}; every sequence of length 3..5 over the same point set scaled by 1e-3 and by 1e-5 x 3 scaled tolerances each; every sequence of length 3..6 over an 8-point sliver set (flat triangles, 1..5 degree crossings; no three collinear) at the exact scales 1, 2^-8, 2^-16 x 4 tolerances; every injective sequence of length 3..8 over an 8-point witness set (two-step back-offs) x 5 tolerances and of length 7 (thorough 8) over the main set x 3 tolerances; every sequence of length <= 4 over the plain 4x4 integer grid x 4 tolerances (termination / subsequence / tolerance clauses only); 7 polygons (holes, unclosed, degenerate rings) x 6 tolerances and all ordered pairs as MultiPolygon; two-member MultiLineStrings. Oracle (every polygon / multi case and every 8th line case also with the vertex slices cut from one flat buffer and called twice: same output, buffer not written): terminates; output is an order-preserving subsequence keeping first and last vertex; an embedding exists in which every dropped vertex is within tol of its replacing segment; exactly simple input => exactly simple output; input unchanged; multi members equal the member simplified alone. Non-trivial = calls that drop at least one vertex."
+	r.Rule = "E1 (isolated workers, 2 GiB address-space limit, 60 s silence horizon): every vertex sequence of length 0..6 (thorough: over 16 points) over a 12-point set with no three points collinear (verified exactly) x tolerances {0,40,100,150,300,1e9}; every sequence of length 3..5 over the same point set scaled by 1e-3 and by 1e-5 x 3 scaled tolerances each; every sequence of length 3..6 over an 8-point sliver set (flat triangles, 1..5 degree crossings; no three collinear) at the exact scales 1, 2^-8, 2^-16 x 4 tolerances; every injective sequence of length 3..8 over an 8-point witness set (two-step back-offs) x 5 tolerances and of length 7 (thorough 8) over the main set x 3 tolerances; three shapes of simple x-monotone lines of 63..1000 vertices x 5 tolerances; every sequence of length <= 4 over the plain 4x4 integer grid x 4 tolerances (termination / subsequence / tolerance clauses only); 7 polygons (holes, unclosed, degenerate rings) x 6 tolerances and all ordered pairs as MultiPolygon; two-member MultiLineStrings. Oracle (every polygon / multi case and every 8th line case also with the vertex slices cut from one flat buffer and called twice: same output, buffer not written): terminates; output is an order-preserving subsequence keeping first and last vertex; an embedding exists in which every dropped vertex is within tol of its replacing segment; exactly simple input => exactly simple output; input unchanged; multi members equal the member simplified alone. Non-trivial = calls that drop at least one vertex."
 	sum := fault.Sweep(r, 16, 2<<20, 60*time.Second, func(idx int64) (string, interface{}) {
 		var sig string
 		var det interface{}
